@@ -23,6 +23,51 @@ fn gen_sexpr(rng: &mut Rng, names: &[String], depth: usize) -> String {
     }
 }
 
+/// if-then-else-heavy formulas: two or three `Ite` terms over rotations of the same three small
+/// sub-terms, joined by a binary connective — the shape in which related standard triples
+/// (`ite(f,g,1)`, `ite(g,1,f)`, …) meet in one apply cache
+fn gen_sexpr_ite(rng: &mut Rng, names: &[String]) -> String {
+    let mut small = |rng: &mut Rng| match rng.below(4) {
+        0 | 1 => format!("(Var {})", rng.pick(names)),
+        2 => format!("(Not (Var {}))", rng.pick(names)),
+        _ => gen_sexpr(rng, names, 1),
+    };
+    let t: Vec<String> = (0..3).map(|_| small(rng)).collect();
+    let mut ite = |rng: &mut Rng| {
+        let p = rng.perm(3);
+        let neg = |s: &String, n: bool| if n { format!("(Not {})", s) } else { s.clone() };
+        format!(
+            "(Ite {} {} {})",
+            neg(&t[p[0]], rng.chance(1, 5)),
+            neg(&t[p[1]], rng.chance(1, 5)),
+            neg(&t[p[2]], rng.chance(1, 5))
+        )
+    };
+    let k = 3 + rng.below(3) as usize;
+    let mut acc = ite(rng);
+    for _ in 1..k {
+        // mostly further if-then-else terms; sometimes a plain connective of two of the sub-terms
+        // (`Or a b` is `ite(a, 1, b)`, `And a b` is `ite(a, b, 0)`)
+        let nxt = if rng.chance(1, 4) {
+            let p = rng.perm(3);
+            format!("({} {} {})", if rng.coin() { "Or" } else { "And" }, t[p[0]], t[p[1]])
+        } else {
+            ite(rng)
+        };
+        let op = *rng.pick(&["And", "Or", "Xor", "Iff"]);
+        acc = if rng.coin() { format!("({} {} {})", op, acc, nxt) } else { format!("({} {} {})", op, nxt, acc) };
+    }
+    acc
+}
+
+fn gen_formula(rng: &mut Rng, names: &[String]) -> String {
+    if rng.chance(1, 2) {
+        gen_sexpr_ite(rng, names)
+    } else {
+        gen_sexpr(rng, names, 4)
+    }
+}
+
 fn run(bin: &str, args: &[&str]) -> Result<String, String> {
     match Command::new(bin).args(args).output() {
         Ok(o) => {
@@ -47,7 +92,7 @@ pub fn cli_lines(rng: &mut Rng, idx: u64, maxvars: usize, bindir: &str, scratch:
             let mut names: Vec<String> = pool.iter().map(|s| s.to_string()).collect();
             rng.shuffle(&mut names);
             names.truncate(k);
-            let text = gen_sexpr(rng, &names, 4);
+            let text = gen_formula(rng, &names);
             // weights in halves (exact, short decimal expansions); sometimes one extra name
             let mut wnames = names.clone();
             if rng.chance(1, 5) {
@@ -123,7 +168,7 @@ pub fn cli_lines(rng: &mut Rng, idx: u64, maxvars: usize, bindir: &str, scratch:
             let mut names: Vec<String> = pool.iter().map(|s| s.to_string()).collect();
             rng.shuffle(&mut names);
             names.truncate(k);
-            let text = gen_sexpr(rng, &names, 4);
+            let text = gen_formula(rng, &names);
             let ffile = format!("{}.sexp", tag);
             let cfile = format!("{}.config.json", tag);
             std::fs::write(&ffile, &text).unwrap();
